@@ -141,7 +141,7 @@ func runC15(c *Ctx) {
 
 	c.Rule("R15g", ruleTextIndependentAttrs, 4)
 	checkIndependentAttrs(c, "R15g", []string{pSqlite, pMysql, pPostgres})
-	c.Rule("R15i", ruleTextFloatDigits, 2)
+	c.Rule("R15i", ruleTextFloatDigits, 1)
 	checkFloatDigits(c, "R15i")
 	c.Rule("R15j", ruleTextIntParserGuard, 1)
 	checkIntParserGuard(c, "R15j")
@@ -336,7 +336,7 @@ func runC03(c *Ctx) {
 	checkOpaqueUDT(c, "R03g", []string{pSqlite})
 	c.Rule("R03h", ruleTextMayWrapSymmetric, 5)
 	checkMayWrapSymmetric(c, "R03h")
-	c.Rule("R03i", ruleTextFloatDigits, 2)
+	c.Rule("R03i", ruleTextFloatDigits, 1)
 	checkFloatDigits(c, "R03i")
 	c.Rule("R03j", ruleTextIntParserGuard, 1)
 	checkIntParserGuard(c, "R03j")
